@@ -1,11 +1,16 @@
 """
 C04 — tar <-> SquashFS conversion preserves the archive; byte-exact fix-point.
 
-Proof: lean/Sqfs/Props/C04.lean (number / checksum / header / PAX / sparse codecs of lib/tar and the conversion
-steps of tar2sqfs, for all inputs).  Tie:
+Proof: lean/Sqfs/Props/C04.lean (number / checksum / PAX / sparse codecs of lib/tar; the full header round trip
+write_tar_header -> read_header for every entry the writer accepts; decode_header / the extension-record loop for every
+dialect; the tree-level fix-point tar2sqfs . sqfs2tar on the trees of images; the conversion steps of tar2sqfs — for all
+inputs).  Tie:
   (a) unit level — harness/h_c04.c links the *real* lib/tar (static helpers included textually) under
       ASan+UBSan and is run on the same script as `sqfsmodel c04`; the specification predicates are evaluated on
       the implementation's answers (exact-or-error, round trips) to classify any disagreement;
+      `rt` evaluates the full round trip on both sides and `rtspec` the specification (`decodedOf`) on every generated entry;
+      probes with the real tools: xattr names with '='/'%' (two conversion rounds), tar2sqfs -E / --no-skip, sparse files
+      beyond 4 GiB;
   (b) tool level — tools/checks/c04_tools.py: generated archives x options through the real tar2sqfs /
       sqfs2tar / rdsquashfs built from the working tree, GNU tar and Python tarfile as independent readers,
       sha256 fix-point.
@@ -19,12 +24,17 @@ REQUIRED = ["Sqfs.C04.readNumber_exact_or_error", "Sqfs.C04.number_roundtrip", "
             "Sqfs.C04.checksum_roundtrip", "Sqfs.C04.prefix_digit_len_correct", "Sqfs.C04.schily_record_length",
             "Sqfs.C04.sparse_expand_spec", "Sqfs.C04.specExpand_length", "Sqfs.C04.mtime_clamp", "Sqfs.C04.mtime_overwrite_path_safe",
             "Sqfs.C04.prefix_strip", "Sqfs.C04.root_handling", "Sqfs.C04.implicit_parents",
-            "Sqfs.C04.sparse_expand_spec_any_request_size", "Sqfs.C04.header_roundtrip_partial", "Sqfs.C04.fixpoint_entry_level_partial",
+            "Sqfs.C04.sparse_expand_spec_any_request_size", "Sqfs.C04.header_roundtrip", "Sqfs.C04.header_refusal",
+            "Sqfs.C04.header_prefix_unused", "Sqfs.C04.xattr_key_escape", "Sqfs.C04.fixpoint_entry_level",
+            "Sqfs.C04.fixpoint_tree_level", "Sqfs.C04.fixpoint_idempotent", "Sqfs.C04.decode_header_spec",
+            "Sqfs.C04.read_header_plain_block", "Sqfs.C04.read_header_after_records", "Sqfs.C04.gnu_long_records",
+            "Sqfs.C04.gnu_long_name_member", "Sqfs.C04.pax_record_spec", "Sqfs.C04.retarget_spec",
             "Sqfs.C04.pax_record_roundtrip", "Sqfs.C04.pax_payload_roundtrip"]
 EXCLUDE = ("lib/tar/src/write_header.c", "lib/tar/src/read_header.c")     # #included by the harness (static helpers)
 U64 = 1 << 64
 
 KEY_D26 = "D26:read_binary-silent-wrap"
+KEY_XKEY = "xattr-key:equals-sign-not-escaped"
 MAX_PER_CLASS = 5
 _class_count = {}
 
@@ -286,20 +296,35 @@ KEY_D27 = "D27:skipped-socket-leaves-extension-records"
 KEY_D22 = "D22:sparse-data-exceeds-record"
 
 
-def classify_reader(ctx, op, line, impl_out, stats):
-    """impl differs from the repaired model: is it the unrepaired reader (D22 sparse bound, D28 xattr order)?  Reports the matching
-    known findings and returns True; returns False if no variant of the unrepaired code explains the output."""
-    variants = [("0", "0")]
-    outs = run_model(ctx, ["%sx %s %s %s" % (op, r, k, line.split(" ", 1)[1]) for r, k in variants])
-    for (r, k), o in zip(variants, outs):
-        if o == impl_out:
-            if r == "0":
-                stats["known_d22_seen"] = stats.get("known_d22_seen", 0) + 1
-                ctx.violation(KEY_D22, "a sparse map whose data regions exceed the record size is accepted; record_size wraps and the following members "
-                              "are swallowed/skipped (%s)" % impl_out[:160], {"unit": [line]})
-            return True
-    return False
+def classify_reader_batch(ctx, op, items, stats):
+    """items = [(line, impl_out)] where impl differs from the repaired model: is it an unrepaired reader?  (r, k, d) = (D22 sparse bound
+    repaired, xattrs appended, SCHILY keys un-escaped).  Reports the matching known findings; returns one bool per item (False: no
+    variant of the unrepaired code explains the output)."""
+    variants = [("0", "0", "1"), ("1", "0", "0"), ("0", "0", "0")]
+    if not items:
+        return []
+    outs = run_model(ctx, ["%sx %s %s %s %s" % (op, r, k, d, line.split(" ", 1)[1]) for line, _ in items for r, k, d in variants])
+    res = []
+    for n, (line, impl_out) in enumerate(items):
+        hit = False
+        for m, (r, k, d) in enumerate(variants):
+            if outs[n * len(variants) + m] == impl_out:
+                if d == "0":
+                    stats["known_xkey_seen"] = stats.get("known_xkey_seen", 0) + 1
+                    ctx.violation(KEY_XKEY, "read_header takes a SCHILY.xattr key verbatim: \"%%3D\"/\"%%25\" as written by GNU tar (and by the repaired "
+                                  "write_schily_xattr) for '='/'%%' in an xattr name are not decoded (%s)" % impl_out[-200:], {"unit": [line]})
+                if r == "0":
+                    stats["known_d22_seen"] = stats.get("known_d22_seen", 0) + 1
+                    ctx.violation(KEY_D22, "a sparse map whose data regions exceed the record size is accepted; record_size wraps and the following members "
+                                  "are swallowed/skipped (%s)" % impl_out[:160], {"unit": [line]})
+                hit = True
+                break
+        res.append(hit)
+    return res
 
+
+def classify_reader(ctx, op, line, impl_out, stats):
+    return classify_reader_batch(ctx, op, [(line, impl_out)], stats)[0]
 
 
 def encnum(v, w, style):
@@ -410,33 +435,79 @@ def gen_name(rng, n, kind="path"):
     return bytes(out[:n]) if out[n - 1:n] != b"/" else bytes(out[:n - 1] + b"z")
 
 
+def gnu_escape_key(k):
+    """GNU tar's xattr_encode_keyword: '%' -> %25, '=' -> %3D"""
+    return k.replace(b"%", b"%25").replace(b"=", b"%3D")
+
+
+def schily_record_len(k, vl):
+    """length of the record write_schily_xattr emits for key k (escaped as the repaired writer does) and a value of vl bytes"""
+    base = 13 + len(gnu_escape_key(k)) + vl + 3
+    nd = 1
+    while len(str(base + nd)) != nd:
+        nd += 1
+    return base + nd
+
+
+PAX_LEN_EDGES = [9, 10, 98, 99, 100, 101, 998, 999, 1000, 1001, 9998, 9999, 10000, 10001]
+XKEY_TAILS = [b"a=b", b"=", b"==x", b"50%", b"%", b"%25", b"%3D", b"a%3Db=c", b"%2", b"%3d", b"x%%=%=", b"=%25=%3D"]
+
+
+def gen_xattr_pair(rng):
+    pfx = rng.choice([b"user.", b"security.", b"trusted.", b"system."])
+    r = rng.random()
+    if r < 0.25:                                            # keys the PAX syntax cannot hold verbatim ('=') / the escape character itself
+        k = pfx + rng.choice(XKEY_TAILS) + bytes(rng.choice(b"abcXYZ_.09=%") for _ in range(rng.randint(0, 6)))
+    else:
+        k = pfx + bytes(rng.choice(b"abcXYZ_.09") for _ in range(rng.randint(1, 40)))
+    if rng.random() < 0.45:                                 # value length chosen so that the record length sits on a digit-count edge
+        want = rng.choice(PAX_LEN_EDGES)
+        vl = max(0, want - (16 + len(gnu_escape_key(k))) - len(str(want)))
+        if schily_record_len(k, vl) != want:                # some lengths do not exist (the length field is self-referential): nearest above
+            vl = next((c for c in range(vl, vl + 4) if schily_record_len(k, c) >= want), vl)
+    else:
+        vl = rng.choice([0, 1, 2, 5, 60, 70, 71, 72, 73, 74, 75, 76, 77, 78, 79, 80, 800, 9900, 9960, 9961, 9962, 9963, 9964, 9965, 9966, 9967, 9968, 9969, 9970, rng.randint(0, 200)])
+        vl = max(0, vl - len(k))
+    v = bytes(rng.choice([0, 10, 61, 32, 37, 0xff, rng.randrange(256)]) for _ in range(vl))
+    return k, v
+
+
 def gen_wentry(rng):
     """arguments of write_tar_header as sqfs2tar would pass them (plus library-level extremes)"""
     kind = rng.choice(["file", "file", "dir", "slink", "slink", "chr", "blk", "fifo", "sock", "hard", "hard"])
     nlen = rng.choice(NAME_LENS + [rng.randint(1, 300)])
+    big = rng.random() < 0.012                               # the reader's 65536-byte limit on GNU 'L'/'K' and PAX records
+    if big:
+        nlen = rng.choice([65534, 65535, 65536, 65537])
     name = gen_name(rng, nlen)
     fmtbits = {"file": S_IFREG, "dir": S_IFDIR, "slink": S_IFLNK, "chr": S_IFCHR, "blk": S_IFBLK, "fifo": S_IFIFO, "sock": S_IFSOCK, "hard": S_IFLNK}[kind]
     if kind == "dir":
-        name += b"/"
-    mode = fmtbits | (0o777 if kind in ("slink", "hard") else rng.choice([0, 0o644, 0o755, 0o7777, rng.randrange(0o10000)]))
-    uid = rng.choice(NUM_VALUES + [rng.randrange(1 << 32)])
-    gid = rng.choice(NUM_VALUES + [rng.randrange(1 << 32)])
-    mtime = rng.choice(MTIMES + [rng.randrange(1 << 32)])
-    size = rng.choice(NUM_VALUES) if kind == "file" else 0
+        name = name[:-1] + b"/" if big else name + b"/"
+    mode = fmtbits | (rng.choice([0o777, 0o777, 0o644, 0]) if kind in ("slink", "hard") else rng.choice([0, 0o644, 0o755, 0o7777, rng.randrange(0o10000)]))
+    uid = rng.choice(NUM_VALUES + [rng.randrange(1 << 32), (127 << 56) - 1])
+    gid = rng.choice(NUM_VALUES + [rng.randrange(1 << 32), (127 << 56) - 1])
+    mtime = rng.choice(MTIMES + [rng.randrange(1 << 32), -(1 << 63) + 1, (1 << 63) - 1])   # INT64_MIN itself: `-value` in write_number_signed is UB (noted, unreachable)
+    size = rng.choice(NUM_VALUES + [(1 << 64) - 1]) if kind == "file" else 0
     target = None
     if kind in ("slink", "hard"):
-        target = gen_name(rng, rng.choice(NAME_LENS + [rng.randint(1, 300)]))
+        tlen = rng.choice(NAME_LENS + [rng.randint(1, 300)])
+        if rng.random() < 0.012:
+            tlen = rng.choice([65535, 65536, 65537])
+        target = gen_name(rng, tlen)
         size = len(target)
-    maj, minr = (rng.choice([0, 1, 8, 255, 256, 4095, (1 << 21) - 1, 1 << 21, (1 << 32) - 1]), rng.choice([0, 1, 255, 256, (1 << 20) - 1, (1 << 24), (1 << 32) - 1])) \
+    maj, minr = (rng.choice([0, 1, 8, 255, 256, 4095, (1 << 21) - 1, 1 << 21, (1 << 31) - 1, 1 << 31, (1 << 32) - 1]),
+                 rng.choice([0, 1, 255, 256, (1 << 20) - 1, (1 << 24), (1 << 31) - 1, 1 << 31, (1 << 32) - 1])) \
         if kind in ("chr", "blk") else (0, 0)
     xattrs = []
-    if kind != "hard" and rng.random() < 0.4:
+    if rng.random() < (0.15 if kind == "hard" else 0.45):    # a hard link record carries no xattrs: write_hard_link ignores them
         for _ in range(rng.randint(1, 4)):
-            k = rng.choice([b"user.", b"security.", b"trusted.", b"system."]) + bytes(rng.choice(b"abcXYZ_.09") for _ in range(rng.randint(1, 40)))
-            vl = rng.choice([0, 1, 2, 5, 60, 70, 71, 72, 73, 74, 75, 76, 77, 78, 79, 80, 800, 9900, 9960, 9961, 9962, 9963, 9964, 9965, 9966, 9967, 9968, 9969, 9970, rng.randint(0, 200)])
-            vl = max(0, vl - len(k))
-            v = bytes(rng.choice([0, 10, 61, 32, 0xff, rng.randrange(256)]) for _ in range(vl))
-            xattrs.append((k, v))
+            xattrs.append(gen_xattr_pair(rng))
+        if rng.random() < 0.03:                              # total PAX payload around the reader's 65536-byte limit
+            k = b"user.big"
+            want = rng.choice([65535, 65536, 65537]) - sum(schily_record_len(a, len(b)) for a, b in xattrs)
+            vl = next((c for c in range(max(0, want - 40), want + 1) if schily_record_len(k, c) >= want), None)
+            if vl is not None and want > 40:
+                xattrs.append((k, bytes(rng.randrange(256) for _ in range(vl))))
     flags = 2 if kind == "hard" else 0
     counter = rng.choice([0, 1, 9, 10, 99, 100, 12345, (1 << 32) - 1])
     return dict(kind=kind, flags=flags, mode=mode, uid=uid, gid=gid, size=size, mtime=mtime, maj=maj, min=minr, counter=counter,
@@ -497,29 +568,44 @@ def roundtrip_failures(e, d):
     if fm in (S_IFCHR, S_IFBLK) and (int(d["maj"]) != e["maj"] or int(d["min"]) != e["min"]):
         bad.append("devno")
     got_x = [] if d["xattr"] == "-" else [tuple(untok(t) for t in p.split(":")) for p in d["xattr"].split(",")]
-    if sorted(got_x) != sorted(e["xattrs"]) or got_x != list(reversed(e["xattrs"])):     # the reader prepends: reverse order (modelled)
+    want_x = [] if kind == "hard" else e["xattrs"]                                       # write_hard_link emits no xattr record
+    if sorted(got_x) != sorted(want_x) or got_x != list(reversed(want_x)):               # the reader prepends: reverse order (modelled)
         bad.append("xattr")
     if d["unk"] != "0":
         bad.append("unknown-record")
     return bad
 
 
+def pax_payload_len(e):
+    return sum(schily_record_len(k, len(v)) for k, v in e["xattrs"])
+
+
+def beyond_reader_limits(e):
+    """`Encodable.nameLen/tgtLen/paxLen`: records the reader refuses by design (TAR_MAX_PATH_LEN, TAR_MAX_SYMLINK_LEN, TAR_MAX_PAX_LEN = 65536)"""
+    if len(e["name"]) > 65536:
+        return True
+    if e["target"] is not None and len(e["target"]) > 65536:
+        return True
+    return e["kind"] != "hard" and pax_payload_len(e) > 65536
+
+
 def in_roundtrip_domain(e):
-    """the hypotheses of header_roundtrip: what write_tar_header can represent"""
+    """the hypotheses of header_roundtrip (`Sqfs.Tar.Encodable`): what write_tar_header can represent and read_header accepts"""
     if e["uid"] >= 127 << 56 or e["gid"] >= 127 << 56:
         return False
-    if any(b"=" in k or b"\0" in k for k, _ in e["xattrs"]):
+    if any(b"\0" in k for k, _ in e["xattrs"]):
         return False
     if e["maj"] >= 1 << 31 or e["min"] >= 1 << 31:               # `int maj = major(rdev)` sign-extends
         return False
-    return True
+    return not beyond_reader_limits(e)
 
 
 def unit_headers(ctx, harness, stats):
     rng = ctx.rng
-    n = 1500 if ctx.quick() else 30000
+    n = 1500 if ctx.quick() else 12000                       # (8 passes per entry now: enc x4, rt x4)
     es = [gen_wentry(rng) for _ in range(n)]
     lines = [enc_line("enc", e) for e in es]
+    rtl = [enc_line("rt", e) for e in es]
     impl, crash = run_impl(ctx, harness, lines)
     if crash:
         k, rc, err = crash
@@ -528,38 +614,38 @@ def unit_headers(ctx, harness, stats):
         return
     model = run_model(ctx, lines)
     cur = run_model(ctx, [enc_line("enccur", e) for e in es])
-    # decode the implementation's own output with the implementation (round trip on the real code)
-    l2, idx = [], []
-    for i, e in enumerate(es):
-        if impl[i].startswith("ok "):
-            l2.append("dec " + impl[i][3:] + "00" * 1024); idx.append(i)
-    back, crash2 = run_impl(ctx, harness, l2)
+    raw = run_model(ctx, [enc_line("encraw", e) for e in es])
+    # the full round trip write_tar_header -> read_header: on the real code, in the model, in the model of the code before the
+    # xattr key repair, and the specification (`decodedOf`) — header_roundtrip says: all equal on `Encodable` entries
+    impl_rt, crash2 = run_impl(ctx, harness, rtl)
     if crash2:
         k, rc, err = crash2
-        ctx.violation("crash:dec", "read_header aborted (rc=%s) on the writer's own output: %s" % (rc, err[-300:]),
-                      {"unit": [l2[min(k, len(l2) - 1)]], "stderr": err})
+        ctx.violation("crash:rt", "write_tar_header/read_header aborted (rc=%s) on %s: %s" % (rc, rtl[min(k, len(rtl) - 1)][:200], err[-300:]),
+                      {"unit": [rtl[min(k, len(rtl) - 1)]], "stderr": err})
         return
-    back_model = run_model(ctx, l2)
-    backmap = dict(zip(idx, back))
-    hist = {"kinds": {}, "name_len": {}, "link_len": {}, "ext_records": {"K": 0, "L": 0, "x": 0}, "num_enc": {"octal": 0, "noterm": 0, "b256": 0}}
-    for j, i in enumerate(idx):
-        if back[j] != back_model[j]:
-            stats["disagreements_checked"] += 1
-            if classify_reader(ctx, "dec", l2[j], back[j], stats):
-                continue
-            report(ctx, "dec-corr", "dec-corr:" + vlib.sha(l2[j])[:12], "read_header: model and code differ on the writer's output for %s: impl=%s model=%s" % (
-                lines[i][:120], back[j][:300], back_model[j][:300]), {"unit": [l2[j]]}, found_input=False)
+    model_rt = run_model(ctx, rtl)
+    raw_rt = run_model(ctx, [enc_line("rtraw", e) for e in es])
+    spec_rt = run_model(ctx, [enc_line("rtspec", e) for e in es])
+    hist = {"kinds": {}, "name_len": {}, "link_len": {}, "ext_records": {"K": 0, "L": 0, "x": 0}, "num_enc": {"octal": 0, "noterm": 0, "b256": 0},
+            "keys_with_eq_or_pct": 0, "beyond_reader_limits": 0, "pax_record_len": {}, "roundtrip_eq_spec": 0, "rt_model_eq_impl": 0}
     for i, e in enumerate(es):
         hist["kinds"][e["kind"]] = hist["kinds"].get(e["kind"], 0) + 1
-        b = "<100" if len(e["name"]) < 100 else ("100" if len(e["name"]) == 100 else ">100")
+        b = "<100" if len(e["name"]) < 100 else ("100" if len(e["name"]) == 100 else (">100" if len(e["name"]) < 65000 else str(len(e["name"]))))
         hist["name_len"][b] = hist["name_len"].get(b, 0) + 1
         if e["target"] is not None:
-            b = "<100" if len(e["target"]) < 100 else ("100" if len(e["target"]) == 100 else ">100")
+            b = "<100" if len(e["target"]) < 100 else ("100" if len(e["target"]) == 100 else (">100" if len(e["target"]) < 65000 else str(len(e["target"]))))
             hist["link_len"][b] = hist["link_len"].get(b, 0) + 1
+        special = e["kind"] != "hard" and any(b"=" in k or b"%" in k for k, _ in e["xattrs"])
+        hist["keys_with_eq_or_pct"] += special
+        if e["kind"] != "hard":
+            for k, v in e["xattrs"]:
+                L = schily_record_len(k, len(v))
+                if L in PAX_LEN_EDGES:
+                    hist["pax_record_len"][str(L)] = hist["pax_record_len"].get(str(L), 0) + 1
         stats["nontrivial"].add(("enc", lines[i][:200]))
         if e["kind"] == "sock":
-            # specification: an unsupported entry leaves the stream untouched
-            if impl[i] == "err -":
+            # specification (header_refusal): an unsupported entry is refused and leaves the stream untouched
+            if impl[i] == "err -" and impl_rt[i] == "err -":
                 pass
             elif impl[i] == cur[i] and impl[i].startswith("err "):
                 stats["disagreements_checked"] += 1
@@ -572,33 +658,68 @@ def unit_headers(ctx, harness, stats):
                        {"unit": [lines[i]]})
             continue
         if impl[i].startswith("ok "):
-            raw = untok(impl[i][3:])
-            for off in range(0, len(raw), 512):
-                blk = raw[off:off + 512]
+            raw_b = untok(impl[i][3:])
+            for off in range(0, len(raw_b), 512):
+                blk = raw_b[off:off + 512]
                 if blk[257:263] == b"ustar " and blk[156:157] in b"KLx":
                     hist["ext_records"][blk[156:157].decode()] += 1
-            last = raw[-512:]
+            last = raw_b[-512:]
             for fo, fw in ((108, 8), (116, 8), (124, 12), (136, 12)):
                 f = last[fo:fo + fw]
                 hist["num_enc"]["b256" if f[0] & 0x80 else ("octal" if f[-1:] == b" " else "noterm")] += 1
-        bad = roundtrip_failures(e, parse_dec(backmap.get(i, "")))
+        dom = in_roundtrip_domain(e)
+        bad = roundtrip_failures(e, parse_dec(impl_rt[i]))              # the specification, evaluated independently in Python on the real code's answer
+        unrepaired = special and impl[i] == raw[i] and impl_rt[i] == raw_rt[i] and (impl[i] != model[i] or impl_rt[i] != model_rt[i])
+        if unrepaired:
+            # the code before fixes/C04-xattr-key-escape.patch: keys copied verbatim.  With '=' in a key the pair is altered (property
+            # violated, failing input); with only '%' the round trip still holds and only the encoding differs from the repaired model.
+            stats["disagreements_checked"] += 1
+            stats["known_xkey_seen"] = stats.get("known_xkey_seen", 0) + 1
+            ctx.violation(KEY_XKEY, "write_tar_header copies an xattr key containing '=' or '%%' verbatim into the SCHILY.xattr record; a PAX keyword "
+                          "ends at the first '=', so read_header (and GNU tar) return a different key/value pair: round trip on the real code %s for %s" % (
+                              ("loses " + "+".join(bad)) if bad else "holds (only '%' present, encoding differs from GNU tar's)", lines[i][:200]),
+                          {"unit": [rtl[i], lines[i]], "decoded": impl_rt[i][:400], "expected": spec_rt[i][:400]}, found_input=bool(bad))
+            continue
         if impl[i] != model[i]:
             stats["disagreements_checked"] += 1
             report(ctx, "enc-corr", "enc:" + vlib.sha(lines[i])[:12], "write_tar_header: model and code differ on %s (round trip on the real code: %s)" % (
                 lines[i][:160], bad or "ok"), {"unit": [lines[i]], "impl": impl[i][:400], "model": model[i][:400]},
-                found_input=bool(bad) and in_roundtrip_domain(e))
-        elif bad and in_roundtrip_domain(e):
+                found_input=bool(bad) and dom)
+            continue
+        if impl_rt[i] != model_rt[i]:
             stats["disagreements_checked"] += 1
-            report(ctx, "enc-rt", "header-roundtrip:%s:%s" % (e["kind"], "+".join(bad)), "write_tar_header -> read_header loses %s for %s" % (bad, lines[i][:200]),
-                   {"unit": [lines[i], "dec " + impl[i][3:]], "decoded": backmap.get(i, "")[:400]})
-    stats["evaluations"] += 3 * len(lines) + 2 * len(l2)
+            report(ctx, "rt-corr", "rt:" + vlib.sha(rtl[i])[:12], "write_tar_header -> read_header: model and code differ on %s: impl=%s model=%s" % (
+                rtl[i][:160], impl_rt[i][:300], model_rt[i][:300]), {"unit": [rtl[i]]}, found_input=bool(bad) and dom)
+            continue
+        hist["rt_model_eq_impl"] += 1
+        if beyond_reader_limits(e):
+            # outside `Encodable` by a documented limit of the reader: the property asks for a loud refusal, never for altered content
+            hist["beyond_reader_limits"] += 1
+            if impl_rt[i] != "err":
+                stats["disagreements_checked"] += 1
+                report(ctx, "rt-limit", "header-roundtrip:limit-not-refused:%s" % e["kind"], "a record beyond the reader's 65536-byte limit is not refused: %s -> %s" % (
+                    rtl[i][:160], impl_rt[i][:300]), {"unit": [rtl[i]]})
+            continue
+        if dom:
+            if impl_rt[i] == spec_rt[i] and not bad:
+                hist["roundtrip_eq_spec"] += 1
+            else:
+                stats["disagreements_checked"] += 1
+                report(ctx, "enc-rt", "header-roundtrip:%s:%s" % (e["kind"], "+".join(bad) or "spec"), "write_tar_header -> read_header loses %s for %s (decodedOf: %s)" % (
+                    bad or "?", lines[i][:200], spec_rt[i][:300]), {"unit": [rtl[i], lines[i]], "decoded": impl_rt[i][:400], "expected": spec_rt[i][:400]})
+    stats["evaluations"] += 4 * len(lines) + 4 * len(rtl)
     stats["enc_entries"] = len(es)
     stats["enc_hist"] = hist
-    stats["samples"].append({"op": lines[0][:200], "impl": impl[0][:120] + "…", "decoded_back": backmap.get(0, "")[:300]})
+    stats["samples"].append({"op": rtl[0][:200], "impl": impl_rt[0][:300], "spec(decodedOf)": spec_rt[0][:300]})
     # prefix_digit_len: the self-referential PAX length
     pl = list(range(0, 2000)) + [10 ** k + d for k in range(1, 19) for d in (-20, -12, -11, -10, -9, -3, -2, -1, 0, 1) if 10 ** k + d >= 0] + [rng.randrange(1 << 40) for _ in range(500)]
     lines = ["pdl %d" % x for x in pl]
-    impl, _ = run_impl(ctx, harness, lines)
+    impl, crash = run_impl(ctx, harness, lines)
+    if crash or len(impl) != len(lines):
+        k, rc, err = crash or (len(impl), 0, "short output")
+        ctx.violation("crash:pdl", "prefix_digit_len aborted (rc=%s) on %s: %s" % (rc, lines[min(k, len(lines) - 1)], err[-300:]),
+                      {"unit": [lines[min(k, len(lines) - 1)]], "stderr": err})
+        return
     model = run_model(ctx, lines)
     for x, a, b in zip(pl, impl, model):
         ok = a.isdigit() and len(str(x + int(a))) == int(a)
@@ -784,8 +905,13 @@ def gen_reader_member(rng):
         for _ in range(rng.choice([0, 0, 1, 2, 3])):
             k = rng.choice([b"user.", b"security.", b"trusted.", b"system.posix_acl_"]) + bytes(rng.choice(b"abcXYZ_.09 %=") for _ in range(rng.randint(1, 20)))
             v = bytes(rng.choice([0, 10, 61, 32, 0xff, rng.randrange(256)]) for _ in range(rng.choice([0, 1, 2, 3, 4, 5, 17, 100])))
-            if rng.random() < 0.5 and b"=" not in k:
-                recs.append(pax_record(b"SCHILY.xattr." + k, v))
+            if rng.random() < 0.15:                           # '=' / '%' in the name, literal "%25"/"%3D" text included
+                k = k[:k.index(b".") + 1] + rng.choice(XKEY_TAILS) + k[-2:]
+            r2 = rng.random()
+            if r2 < 0.35 and b"=" not in k and b"%25" not in k and b"%3D" not in k:
+                recs.append(pax_record(b"SCHILY.xattr." + k, v))                       # verbatim (star, old GNU tar)
+            elif r2 < 0.6:
+                recs.append(pax_record(b"SCHILY.xattr." + gnu_escape_key(k), v))       # GNU tar >= 1.29: '%' -> %25, '=' -> %3D
             else:
                 recs.append(pax_record(b"LIBARCHIVE.xattr." + url_enc(rng, k), b64_libarchive(rng, v)))
             xat.append((k, v))
@@ -890,6 +1016,26 @@ def unit_reader(ctx, harness, stats):
     seeds = sorted((vlib.REPO / "lib/tar/test/data").glob("*/*.tar")) + sorted(cdir.glob("*.tar"))
     seed_streams = [p.read_bytes() for p in seeds if p.stat().st_size < 3000000]
     lines = ["dec " + tok(b + b"\0" * 1024) for b, _, _ in members] + ["dec " + tok(s) for s in seed_streams]
+    # streams that end in a record shorter than a header: only zero bytes (or nothing) is a clean end of the archive, anything else is
+    # an error (fix 800780c) — never `eof`, which tar2sqfs would take for an empty archive
+    hdr0 = mk_header(name=b"cut", size=0, dialect="ustar")
+    partial = [(b"", "eof"), (b"\0" * 100, "eof"), (b"\0" * 511, "eof"), (b"\0" * 512 + b"\0" * 10, "eof"), (b"\0" * 1024 + b"x", "eof"),
+               (b"a" * 100, "err"), (b"x", "err"), (hdr0[:511], "err"), (hdr0[:300], "err"), (b"\0" * 511 + b"\x01", "err"),
+               (b"\0" * 512 + b"xyz", "err"), (b"\0" * 512 + hdr0[:257], "err"), (bytes(rng.randrange(1, 256) for _ in range(rng.randint(1, 511))), "err")]
+    plines = ["dec " + tok(b) for b, _ in partial]
+    pimpl, pcrash = run_impl(ctx, harness, plines)
+    pmodel = run_model(ctx, plines)
+    for (b, want), l, a, m in zip(partial, plines, pimpl if not pcrash else ["crash"] * len(plines), pmodel):
+        stats["nontrivial"].add(("dec", vlib.sha(l)[:16]))
+        if a != want:
+            stats["disagreements_checked"] += 1
+            report(ctx, "dec-short", "dec:short-record:%s-instead-of-%s" % (a[:8], want), "read_header on a stream ending in a %d-byte record (%s) answers %s, "
+                   "must be %s: a damaged/truncated archive is taken for a clean end" % (len(b) % 512, "all zero" if not any(b[-(len(b) % 512 or 512):]) else "not zero", a[:60], want), {"unit": [l]})
+        elif a != m:
+            stats["disagreements_checked"] += 1
+            report(ctx, "dec-short-corr", "dec-short:" + vlib.sha(l)[:12], "read_header on a short record: code %s model %s" % (a[:60], m[:60]), {"unit": [l]}, found_input=False)
+    stats["evaluations"] += 2 * len(plines)
+    stats["dec_partial_records"] = len(plines)
     impl, crash = run_impl(ctx, harness, lines)
     if crash:
         k, rc, err = crash
@@ -897,6 +1043,8 @@ def unit_reader(ctx, harness, stats):
         return
     model = run_model(ctx, lines)
     hist, d22 = {}, 0
+    expl = dict(zip([i for i in range(len(lines)) if impl[i] != model[i]],
+                    classify_reader_batch(ctx, "dec", [(lines[i], impl[i]) for i in range(len(lines)) if impl[i] != model[i]], stats)))
     for i, l in enumerate(lines):
         b, exp, cls = members[i] if i < len(members) else (None, None, "seed-archive")
         hist[cls] = hist.get(cls, 0) + 1
@@ -909,7 +1057,7 @@ def unit_reader(ctx, harness, stats):
                        {"unit": [l]})
             continue
         stats["disagreements_checked"] += 1
-        if not classify_reader(ctx, "dec", l, impl[i], stats):
+        if not expl[i]:
             report(ctx, "dec-corr", "dec:" + vlib.sha(l)[:12], "read_header: model and code differ on a %s member: impl=%s model=%s" % (cls, impl[i][:300], model[i][:300]),
                    {"unit": [l]}, found_input=bool(bad))
     stats["evaluations"] += 3 * len(lines)
@@ -925,16 +1073,34 @@ def unit_reader(ctx, harness, stats):
         if rng.random() < 0.7:
             ms = [m for m in ms if m[1] is not None or m[2].startswith("sparse")] or ms
         body = b"".join(m[0] for m in ms)
-        end = rng.choice([b"\0" * 1024, b"\0" * 1024, b"\0" * 512, b"", b"\0" * 10240])
-        archives.append((body + end, ms))
-    lines = ["iter " + tok(a) for a, _ in archives] + ["iter " + tok(s) for s in seed_streams]
+        end, want_end = rng.choice([(b"\0" * 1024, 1), (b"\0" * 1024, 1), (b"\0" * 512, 1), (b"", 1), (b"\0" * 10240, 1),
+                                    # … and archives that end in a partial record (zero: clean end; not zero: error), with/without end marker
+                                    (b"\0" * 100, 1), (b"\0" * 512 + b"\0" * 17, 1), (b"\0" * 1024 + b"x", 1),
+                                    (b"garbage, not a header", -1), (mk_header(name=b"cut")[:511], -1), (b"\0" * 512 + b"x", -1),
+                                    (b"\0" * 511 + b"\x01", -1), (mk_header(name=b"cut", size=5)[:rng.randint(1, 500)], -1)])
+        archives.append((body + end, ms, want_end))
+    # quick tier: the seed archives holding megabyte-sized sparse files (34 KB each, 2 MiB expanded; ~50 s of model time each) go
+    # through the iterator in the thorough tier only; their headers are still decoded above, and generated sparse members of every
+    # dialect plus sparse-files/gnu-small.tar keep the sparse walk covered
+    iter_seeds = [s for s in seed_streams if not ctx.quick() or len(s) < 20000]
+    stats["iter_seed_archives"] = len(iter_seeds)
+    lines = ["iter " + tok(a) for a, _, _ in archives] + ["iter " + tok(s) for s in iter_seeds]
     impl, crash = run_impl(ctx, harness, lines)
     if crash:
         k, rc, err = crash
         ctx.violation("crash:iter", "tar iterator aborted (rc=%s): %s" % (rc, err[-400:]), {"unit": [lines[min(k, len(lines) - 1)]], "stderr": err})
         return
-    model = run_model(ctx, lines)
+    # the model expands a sparse file into a list (quadratic in the file size): the few seed archives with megabyte-sized sparse files
+    # each take the better part of a minute, so they run next to each other (5 processes) instead of one after the other
+    from concurrent.futures import ThreadPoolExecutor
+    na = len(archives)
+    with ThreadPoolExecutor(max_workers=5) as ex:
+        fut_main = ex.submit(run_model, ctx, lines[:na])
+        futs = [ex.submit(run_model, ctx, [l]) for l in lines[na:]]
+        model = fut_main.result() + [f.result()[0] for f in futs]
     nsparse = 0
+    expl = dict(zip([i for i in range(len(lines)) if impl[i] != model[i]],
+                    classify_reader_batch(ctx, "iter", [(lines[i], impl[i]) for i in range(len(lines)) if impl[i] != model[i]], stats)))
     for i, l in enumerate(lines):
         ms = archives[i][1] if i < len(archives) else []
         stats["nontrivial"].add(("iter", vlib.sha(l)[:16]))
@@ -957,15 +1123,15 @@ def unit_reader(ctx, harness, stats):
                         got = untok(e.get("data", "")) if e.get("data", "corrupted") != "corrupted" else None
                         if got is None or got != w["data"] or int(e.get("len", -1)) != len(w["data"]):
                             bad.append("data of %r" % w["name"][:20])
-            if end != "end=1":
-                bad.append("end")
+            if end != "end=%d" % archives[i][2]:
+                bad.append("end: %s, expected end=%d (%s)" % (end, archives[i][2], "partial non-zero record at the end" if archives[i][2] < 0 else "clean end"))
         if impl[i] == model[i]:
             if bad:
                 stats["disagreements_checked"] += 1
                 report(ctx, "iter-spec", "iter-spec:" + vlib.sha(l)[:12], "tar iterator mishandles a well-formed archive (%s)" % bad, {"unit": [l]})
             continue
         stats["disagreements_checked"] += 1
-        if not classify_reader(ctx, "iter", l, impl[i], stats):
+        if not expl[i]:
             report(ctx, "iter-corr", "iter:" + vlib.sha(l)[:12], "tar iterator: model and code differ: impl=%s model=%s" % (impl[i][:300], model[i][:300]),
                    {"unit": [l]}, found_input=bool(bad))
     stats["evaluations"] += 3 * len(lines)
@@ -1174,6 +1340,278 @@ def tool_conv(ctx, harness, stats):
     stats["conv_hist"] = hist
 
 
+# ------------------------------------------------------------------ xattr names with '=' / '%' through the real tools (fix-point of the xattr set)
+def gnu_unescape_key(k):
+    out, i = bytearray(), 0
+    while i < len(k):
+        if k[i:i + 3] == b"%25":
+            out += b"%"; i += 3
+        elif k[i:i + 3] == b"%3D":
+            out += b"="; i += 3
+        else:
+            out.append(k[i]); i += 1
+    return bytes(out)
+
+
+def schily_pairs(tar_bytes):
+    """{member name: [(key, value)]} from the PAX 'x' records of an archive, SCHILY.xattr keywords un-escaped by GNU tar's rule;
+    own block walker (no tar reader involved).  None when the archive is not well-formed."""
+    out, pending, pos = {}, [], 0
+    while pos + 512 <= len(tar_bytes):
+        h = tar_bytes[pos:pos + 512]
+        pos += 512
+        if h == b"\0" * 512:
+            continue
+        try:
+            size = int(h[124:136].rstrip(b" \0") or b"0", 8)
+        except ValueError:
+            return None
+        tf = h[156:157]
+        payload = tar_bytes[pos:pos + size]
+        pos += (size + 511) // 512 * 512
+        if tf == b"x":
+            p = 0
+            while p < len(payload):
+                sp = payload.find(b" ", p)
+                if sp < 0 or not payload[p:sp].isdigit():
+                    return None
+                L = int(payload[p:sp])
+                body = payload[sp + 1:p + L - 1]
+                kw, eq, val = body.partition(b"=")
+                if not eq or L <= 0:
+                    return None
+                if kw.startswith(b"SCHILY.xattr."):
+                    pending.append((gnu_unescape_key(kw[13:]), val))
+                p += L
+        elif tf in (b"L", b"K"):
+            continue
+        else:
+            name = h[:100].split(b"\0")[0]
+            out[name] = pending
+            pending = []
+    return out
+
+
+def run_xkey_case(ctx, tools, d, tag, arc):
+    """two rounds tar2sqfs -> sqfs2tar starting from `arc`; returns (failure message or None, [pairs of member f in tar1, in tar2])"""
+    env = ctx.san_env()
+    cur, tars = arc, []
+    for rnd in (1, 2):
+        img = d / ("x%s_%d.sqfs" % (tag, rnd))
+        r = vlib.sh([str(tools["tar2sqfs"]), "-q", "-f", "-j", "1", str(img)], input=cur, env=env, timeout=600, text=False)
+        if r.returncode != 0:
+            return "tar2sqfs (round %d) exit %d: %s" % (rnd, r.returncode, r.stderr.decode("latin1")[-300:]), []
+        r = vlib.sh([str(tools["sqfs2tar"]), str(img)], env=env, timeout=600, text=False)
+        try:
+            img.unlink()
+        except OSError:
+            pass
+        if r.returncode != 0:
+            return "sqfs2tar (round %d) exit %d: %s" % (rnd, r.returncode, r.stderr.decode("latin1")[-300:]), []
+        tars.append(r.stdout)
+        cur = r.stdout
+    got = [schily_pairs(t) for t in tars]
+    return None, [sorted(g.get(b"f", [])) if g is not None else None for g in got]
+
+
+def xkey_verdict(pairs, fail, obs):
+    """'ok' | 'known' (exactly what the code before fixes/C04-xattr-key-escape.patch does) | 'bad'"""
+    if fail:
+        return "bad"
+    want = sorted(pairs)
+    if obs[0] == want and obs[1] == want:
+        return "ok"
+    # unrepaired: the record is `name=value` verbatim and every reader (ours, GNU tar, this walker) splits it at the first '='
+    verbatim = sorted((gnu_unescape_key((k + b"=" + v).partition(b"=")[0]), (k + b"=" + v).partition(b"=")[2]) for k, v in pairs)
+    # (a second round may drop what the first one mangled into an unusable name such as `security.`)
+    return "known" if obs[0] == verbatim and obs[1] is not None and all(x in verbatim for x in obs[1]) else "bad"
+
+
+def tool_xattr_keys(ctx, harness, stats):
+    """an image whose inode has xattr names containing '=' / '%': img1 -> sqfs2tar -> tar2sqfs -> img2 -> sqfs2tar must keep every
+    (name, value) pair (C04: conversion preserves the archive; fix-point).  The names get into img1 through LIBARCHIVE.xattr records
+    (url-encoded), which tar2sqfs reads without involving the SCHILY code path.  Observer: an own walker over sqfs2tar's output that
+    reads SCHILY.xattr keywords the way GNU tar does (split at the first '=', then %3D/%25 un-escaped)."""
+    import base64
+    rng = ctx.rng
+    tools = {t: ctx.build_tool(t) for t in ("tar2sqfs", "sqfs2tar")}
+    d = ctx.scratch / "xkey"
+    d.mkdir(exist_ok=True)
+    tails = list(XKEY_TAILS) + [b"plain", b"a.b"]
+    rng.shuffle(tails)
+    ncase = 5 if ctx.quick() else 40
+    seen = {"cases": 0, "pairs": 0, "fixpoint_ok": 0, "unrepaired_behaviour": 0}
+    for ci in range(ncase):
+        pairs = []
+        for _ in range(rng.randint(1, 3)):
+            k = rng.choice([b"user.", b"trusted.", b"security."]) + tails[(ci * 3 + len(pairs)) % len(tails)] + bytes(rng.choice(b"ab=%") for _ in range(rng.randint(0, 3)))
+            if k in [p[0] for p in pairs]:
+                continue
+            pairs.append((k, bytes(rng.choice([0, 10, 61, 37, 65, rng.randrange(256)]) for _ in range(rng.choice([0, 1, 5, 40])))))
+        recs = [pax_record(b"LIBARCHIVE.xattr." + url_enc(rng, k), base64.b64encode(v)) for k, v in pairs]
+        arc = pax_member(recs) + mk_header(name=b"f", size=3, mtime=1542905892, dialect="ustar") + pad512(b"abc") + b"\0" * 1024
+        replay = {"xkey": {"archive_hex": tok(arc), "pairs": [[tok(k), tok(v)] for k, v in pairs]}}
+        seen["cases"] += 1; seen["pairs"] += len(pairs)
+        stats["nontrivial"].add(("xkey", vlib.sha(tok(arc))[:16]))
+        fail, obs = run_xkey_case(ctx, tools, d, str(ci), arc)
+        stats["evaluations"] += 4
+        verdict = xkey_verdict(pairs, fail, obs)
+        if verdict == "ok":
+            seen["fixpoint_ok"] += 1
+            continue
+        stats["disagreements_checked"] += 1
+        if verdict == "known":
+            seen["unrepaired_behaviour"] += 1
+            stats["known_xkey_seen"] = stats.get("known_xkey_seen", 0) + 1
+            ctx.violation(KEY_XKEY, "sqfs2tar writes `SCHILY.xattr.<name>=<value>` with the xattr name verbatim; a PAX keyword ends at the first '=' "
+                          "(and GNU tar un-escapes %%3D/%%25), so an inode with the attributes %s comes back from sqfs2tar | tar2sqfs (and from GNU tar) "
+                          "with %s" % ([(k, v[:12]) for k, v in sorted(pairs)][:3], [(k, v[:12]) for k, v in obs[1]][:3]), replay,
+                          found_input=any(b"=" in k for k, _ in pairs) or sorted(pairs) != obs[1])
+        elif fail and (" exit 9" in fail or " exit -" in fail):
+            ctx.violation("crash:xkey:" + vlib.sha(tok(arc))[:10], "xattr name with '='/'%%': %s" % fail, replay)
+        else:
+            report(ctx, "xkey", "xkey:" + vlib.sha(tok(arc))[:10], "xattr set not preserved by sqfs2tar/tar2sqfs: stored %s, after one round %s, after two %s%s" % (
+                sorted(pairs)[:3], obs[0][:3] if obs and obs[0] else None, obs[1][:3] if obs and obs[1] else None, (" — " + fail) if fail else ""), replay)
+    stats["xattr_key_fixpoint"] = seen
+
+
+# ------------------------------------------------------------------ tar2sqfs options no other generator passes: --exclude-dir, --no-skip
+def exclude_verdict(ctx, tools, d, tag, arc, pats):
+    """tar2sqfs -E on a flat archive of one-byte files: (None if as specified else message, number of excluded members)"""
+    import fnmatch
+    members = [arc[o:o + 100].split(b"\0")[0] for o in range(0, len(arc) - 1024, 1024)]
+    kept = [n for n in members if not any(fnmatch.fnmatchcase(n.decode(), p) for p in pats)]
+    want = set()
+    for n in kept:
+        parts = n.split(b"/")
+        for k in range(1, len(parts) + 1):
+            want.add(b"/".join(parts[:k]))
+    img = d / ("e%s.sqfs" % tag)
+    cmd = [str(tools["tar2sqfs"]), "-q", "-f", "-j", "1"]
+    for p in pats:
+        cmd += ["-E", p]
+    r = vlib.sh(cmd + [str(img)], input=arc, env=ctx.san_env(), timeout=600, text=False)
+    if r.returncode != 0:
+        return "tar2sqfs -E %s fails (exit %d): %s" % (pats, r.returncode, r.stderr.decode("latin1")[-200:]), len(members) - len(kept)
+    obs, err = observe_image(ctx, tools, img)
+    try:
+        img.unlink()
+    except OSError:
+        pass
+    got = None if obs is None else set(p for p in (untok(l.split()[1]) for l in obs) if p)          # without the root line
+    if got != want:
+        return "tar2sqfs -E %s on members %s: stored %s, expected %s%s" % (pats, members, sorted(got) if got is not None else None, sorted(want),
+                                                                           (" (" + err + ")") if err else ""), len(members) - len(kept)
+    return None, len(members) - len(kept)
+
+
+def noskip_verdict(ctx, tools, d, tag, arc, flags):
+    img = d / ("n%s.sqfs" % tag)
+    r = vlib.sh([str(tools["tar2sqfs"]), "-q", "-f", "-j", "1"] + flags + [str(img)], input=arc, env=ctx.san_env(), timeout=600, text=False)
+    try:
+        img.unlink()
+    except OSError:
+        pass
+    must_fail = "--no-skip" in flags
+    if r.returncode >= 90 or r.returncode < 0 or (r.returncode != 0) != must_fail:
+        return "an xattr with a prefix SquashFS cannot store (system.), tar2sqfs %s: exit %d, expected %s — %s" % (
+            " ".join(flags) or "(default)", r.returncode, "failure" if must_fail else "success with a warning", r.stderr.decode("latin1")[-200:])
+    return None
+
+
+def big_sparse_verdict(ctx, tools, d, tag, dialect, salt=0):
+    """a sparse member with data regions before, across and after the 4 GiB mark; None if the image holds exactly the expansion"""
+    import random, subprocess
+    G = 1 << 32
+    m = [(0, 512), (G - 512, 1024), (G + 4096 + 512 * (salt % 7), 512)]
+    real = m[-1][0] + 512 + 100 + salt % 50
+    data = bytes((i * 7 + salt) % 251 + 1 for i in range(2048))                  # no zero byte: holes and data are distinguishable
+    arc = sparse_member(random.Random(salt), b"big", m, real, data, dialect) + b"\0" * 1024
+    img = d / ("big%s.sqfs" % tag)
+    env = ctx.san_env()
+    r = vlib.sh([str(tools["tar2sqfs"]), "-q", "-f", "-j", "1", str(img)], input=arc, env=env, timeout=1800, text=False)
+    if r.returncode != 0:
+        return "tar2sqfs fails on a %s sparse member with map %s, size %d: exit %d %s" % (dialect, m, real, r.returncode, r.stderr.decode("latin1")[-200:])
+    p = subprocess.Popen([str(tools["rdsquashfs"]), "-c", "big", str(img)], env=env, stdout=subprocess.PIPE, stderr=subprocess.DEVNULL)
+    pos, bad, dpos = 0, None, 0
+    regions = []
+    o = 0
+    for off, cnt in m:
+        regions.append((off, cnt, o)); o += cnt
+    while True:
+        b = p.stdout.read(1 << 22)
+        if not b:
+            break
+        if bad is None:
+            exp_nonzero = [(off, cnt, so) for off, cnt, so in regions if off < pos + len(b) and off + cnt > pos]
+            if not exp_nonzero:
+                if b.count(0) != len(b):
+                    bad = "non-zero byte in a hole at [%d, %d)" % (pos, pos + len(b))
+            else:
+                want = bytearray(len(b))
+                for off, cnt, so in exp_nonzero:
+                    lo, hi = max(off, pos), min(off + cnt, pos + len(b))
+                    want[lo - pos:hi - pos] = data[so + lo - off:so + hi - off]
+                if bytes(want) != b:
+                    bad = "wrong content in [%d, %d)" % (pos, pos + len(b))
+        pos += len(b)
+    p.wait()
+    try:
+        img.unlink()
+    except OSError:
+        pass
+    if p.returncode != 0:
+        return "rdsquashfs -c fails on the image of a %s sparse member beyond 4 GiB (exit %d)" % (dialect, p.returncode)
+    if pos != real:
+        return "%s sparse member with map %s: stored file has %d bytes, expected %d" % (dialect, m, pos, real)
+    if bad:
+        return "%s sparse member with map %s, size %d: %s" % (dialect, m, real, bad)
+    return None
+
+
+def tool_option_probes(ctx, harness, stats):
+    """(a) `tar2sqfs -E <glob>`: exactly the members whose canonical name matches a glob (fnmatch, flags 0: '*' also matches '/') are left
+    out, everything else is stored; (b) an xattr with a prefix SquashFS cannot store is skipped with a warning, and refused with
+    `--no-skip`.  Expected trees come from Python (`fnmatch.fnmatchcase`), never from the code under test."""
+    rng = ctx.rng
+    tools = {t: ctx.build_tool(t) for t in ("tar2sqfs", "rdsquashfs", "sqfs2tar")}
+    d = ctx.scratch / "optp"
+    d.mkdir(exist_ok=True)
+    seen = {"exclude_cases": 0, "excluded_members": 0, "no_skip_cases": 0}
+    names = [b"keep", b"skipme", b"skipme2", b"d/x.tmp", b"d/y", b"d/sub/z.tmp", b"e/f", b"e/skipme", b"q.tmp", b"dd/x"]
+    for ci in range(4 if ctx.quick() else 30):
+        pats = rng.sample(["skipme", "*.tmp", "d/*", "e/f", "d/?", "skipme*", "*/skipme", "nothing", "d/sub/*"], rng.randint(1, 3))
+        members = rng.sample(names, rng.randint(3, len(names)))
+        arc = b"".join(mk_header(name=n, size=1, mtime=1542905892, dialect="ustar") + pad512(b"x") for n in members) + b"\0" * 1024
+        msg, nex = exclude_verdict(ctx, tools, d, str(ci), arc, pats)
+        seen["exclude_cases"] += 1; seen["excluded_members"] += nex
+        stats["evaluations"] += 2
+        stats["nontrivial"].add(("optE", vlib.sha(tok(arc) + repr(pats))[:16]))
+        if msg:
+            stats["disagreements_checked"] += 1
+            report(ctx, "optE", "optE:" + vlib.sha(tok(arc) + repr(pats))[:10], msg, {"optprobe": {"kind": "exclude", "archive_hex": tok(arc), "patterns": pats}})
+    arc = pax_member([pax_record(b"SCHILY.xattr.system.posix_acl_access", b"\x02\0\0\0"), pax_record(b"SCHILY.xattr.user.ok", b"v")]) + \
+        mk_header(name=b"f", size=1, mtime=1542905892, dialect="ustar") + pad512(b"x") + b"\0" * 1024
+    for ci, flags in enumerate([[], ["--no-skip"]]):
+        msg = noskip_verdict(ctx, tools, d, str(ci), arc, flags)
+        seen["no_skip_cases"] += 1
+        stats["evaluations"] += 1
+        if msg:
+            stats["disagreements_checked"] += 1
+            report(ctx, "optN", "no-skip:" + ("with" if flags else "without"), msg, {"optprobe": {"kind": "no-skip", "archive_hex": tok(arc), "flags": flags}})
+    # (c) a sparse file whose holes/offsets lie beyond 4 GiB (64-bit arithmetic of the sparse walk; the Lean model is over Nat and the
+    # unit-level generator stays below 1 MiB): tar2sqfs must store exactly the specified expansion
+    for ci, dialect in enumerate([rng.choice(["old", "0.0", "0.1", "1.0"])] if ctx.quick() else ["old", "0.0", "0.1", "1.0"]):
+        salt = rng.randrange(1 << 30)
+        msg = big_sparse_verdict(ctx, tools, d, str(ci), dialect, salt)
+        seen["big_sparse_cases"] = seen.get("big_sparse_cases", 0) + 1
+        stats["evaluations"] += 2
+        if msg:
+            stats["disagreements_checked"] += 1
+            report(ctx, "bigsparse", "sparse-4GiB:" + dialect, msg, {"optprobe": {"kind": "big-sparse", "dialect": dialect, "salt": salt}})
+    stats["option_probes"] = seen
+
+
 # ------------------------------------------------------------------ entry points
 def run(ctx):
     ok, problems = vlib.proof_gate(ctx, MODULE, REQUIRED)
@@ -1187,22 +1625,28 @@ def run(ctx):
     stats = {"evaluations": 0, "disagreements_checked": 0, "nontrivial": set(), "samples": []}
     t0 = time.time()
     harness = build_harness(ctx)
-    for fn in (unit_numbers, unit_checksum, unit_headers, unit_reader, unit_canon_inplace, tool_conv):
+    for fn in (unit_numbers, unit_checksum, unit_headers, unit_reader, unit_canon_inplace, tool_conv, tool_xattr_keys, tool_option_probes):
         t1 = time.time()
         fn(ctx, harness, stats)
         ctx.log("%s: %.1fs" % (fn.__name__, time.time() - t1))
     stats["unit_wall_s"] = round(time.time() - t0, 1)
     tools_stats = {}
-    c04_tools = None
-    if not os.environ.get("C04_SKIP_TOOLS"):                  # development switch only; the registered commands never set it
+    if os.environ.get("C04_SKIP_TOOLS"):
+        # development switch only (the registered commands never set it): a run without the tool-level part is never green
+        ctx.violation("infra:tools-skipped", "C04_SKIP_TOOLS is set: the tool-level sub-checks (t2s, s2t, fix-point) did not run", {"env": "C04_SKIP_TOOLS"},
+                      found_input=False)
+    else:
         try:
             from checks import c04_tools
-        except ImportError:
+        except Exception as e:                                # the tool level is the only execution cover of three headline clauses
+            import traceback
+            ctx.violation("infra:c04_tools-import", "tools/checks/c04_tools.py cannot be imported (%s): the tool-level sub-checks did not run" % e,
+                          {"traceback": traceback.format_exc()}, found_input=False)
             c04_tools = None
-    if c04_tools is not None:
-        t1 = time.time()
-        tools_stats = c04_tools.run_tools(ctx) or {}
-        tools_stats["wall_s"] = round(time.time() - t1, 1)
+        if c04_tools is not None:
+            t1 = time.time()
+            tools_stats = c04_tools.run_tools(ctx) or {}
+            tools_stats["wall_s"] = round(time.time() - t1, 1)
     nontrivial = stats.pop("nontrivial")
     ctx.cov.update({
         "evaluations": stats.pop("evaluations") + int(tools_stats.get("counters", {}).get("tool_runs", 0)),
@@ -1248,6 +1692,27 @@ def replay(ctx, path):
         print("model   :", norm_conv_model(model[0]))
         print("model of the unrepaired code:", norm_conv_model(cur[0]))
         return 0 if got == norm_conv_model(model[0]) else 1
+    if "xkey" in rp:
+        tools = {t: ctx.build_tool(t) for t in ("tar2sqfs", "sqfs2tar")}
+        pairs = [(untok(k), untok(v)) for k, v in rp["xkey"]["pairs"]]
+        fail, obs = run_xkey_case(ctx, tools, ctx.scratch, "replay", untok(rp["xkey"]["archive_hex"]))
+        print("stored xattrs           :", sorted(pairs))
+        print("after sqfs2tar          :", obs[0] if obs else fail)
+        print("after one more round    :", obs[1] if obs else fail)
+        v = xkey_verdict(pairs, fail, obs)
+        print("verdict:", v)
+        return 0 if v == "ok" else 1
+    if "optprobe" in rp:
+        tools = {t: ctx.build_tool(t) for t in ("tar2sqfs", "rdsquashfs", "sqfs2tar")}
+        o = rp["optprobe"]
+        if o["kind"] == "big-sparse":
+            msg = big_sparse_verdict(ctx, tools, ctx.scratch, "replay", o["dialect"], o.get("salt", 0))
+        elif o["kind"] == "exclude":
+            msg, _ = exclude_verdict(ctx, tools, ctx.scratch, "replay", untok(o["archive_hex"]), o["patterns"])
+        else:
+            msg = noskip_verdict(ctx, tools, ctx.scratch, "replay", untok(o["archive_hex"]), o["flags"])
+        print(msg or "as specified")
+        return 1 if msg else 0
     if "unit" in rp:
         ctx.lean_build(["sqfsmodel"])
         harness = build_harness(ctx)
